@@ -11,6 +11,7 @@ multi-index frame is involved), names are arbitrary pairwise distinct labels.
 import SkVerif.Lemmas.PanelPath
 import SkVerif.Lemmas.PanelNames
 import SkVerif.Lemmas.Panel2d
+import SkVerif.Lemmas.PanelLong
 namespace SkVerif.C15
 open SkVerif SkVerif.Panel SkVerif.Panel.Spec SkVerif.Panel.Lem
 
@@ -361,6 +362,145 @@ theorem tab2_to_nested_array_cells_rejected (ops : NameOps ν) (T : Tab2 α) (hn
   | nil => exact absurd h hne
   | cons r rs => simp [from2dToNested, h, bind, Except.bind, throw, throwThe, MonadExceptOf.throw]
 
+/-! ### long tables -/
+
+/-- nested → long: the long table `from_nested_to_long` builds is the molten multi-index frame of
+the same panel, under the id-column names asked for -/
+theorem nested_to_long (reserved : ν → Bool) {n c t : Nat} {k : Bool} {N : Nested ν α}
+    (hN : WFNested n c t k N) (hn : 0 < n) (hc : 0 < c) (hres : N.names.any reserved = false)
+    (i tm d : Option String) :
+    fromNestedToLong reserved N i tm d =
+      .ok ⟨i.getD "index", tm.getD "time_index", d.getD "column",
+        longRowsM N.names (panelOfNested N)⟩ := by
+  obtain ⟨hrect, heq⟩ := wfNested_eq_nestedOf hN hn hc
+  have hl : N.names.length = c := by simp [Nested.names, hN.2.1]
+  conv => lhs; rw [heq]
+  exact fromNestedToLong_ok reserved hrect hn hc N.names hl k hres i tm d
+
+/-- every cell of the panel is one row of the long table: for instance `i`, time `q` and the
+variable named `d` with value `v` in the multi-index row `(i, q)` there is the row `(i, q, d, v)` -/
+theorem long_rows_complete (names : List ν) {n c t : Nat} {X : Arr3 α} (hX : Rect3 n c t X)
+    (hn : 0 < n) (hc : 0 < c) (hl : names.length = c) (key : Int × Int) (vals : List α)
+    (hr : (key, vals) ∈ miRows X) (d : ν) (v : α) (hd : (d, v) ∈ names.zip vals) :
+    (key.1, key.2, d, v) ∈ longRowsM names X := by
+  have := mem_melt names (miRows X) (by intro r hr; rw [hl]; exact miRows_rowsLen hX hn hc r hr)
+    key vals hr d v hd
+  unfold longRowsM
+  exact List.mem_map.mpr ⟨((key, d), v), this, rfl⟩
+
+/-- (the long table orders variables by their identifier) The variables that come back from a long
+table are the original ones, each name with its own data, in sorted-name order. -/
+theorem sortVars_spec (lt : ν → ν → Bool) (hnle : TotalLE (fun a b : ν => !lt b a)) {n c t : Nat}
+    {X : Arr3 α} (hX : Rect3 n c t X) (hn : 0 < n) (names : List ν) (hl : names.length = c) :
+    ((sortVarsNames lt names X).zip (transposeW c (sortVarsPanel lt names X))).Perm
+      (names.zip (transposeW c X)) ∧
+    (sortVarsNames lt names X).Pairwise (fun a b => (!lt b a) = true) ∧
+    Rect3 n c t (sortVarsPanel lt names X) := by
+  refine ⟨?_, ?_, rect_sortVarsPanel lt hX hn names hl⟩
+  · rw [transposeW_sortVarsPanel lt hX hn names hl]
+    unfold sortVarsNames
+    rw [← List.zip_of_prod (xs := sortedVars lt names X) rfl rfl]
+    exact sortedVars_perm lt hX hn names
+  · have := TotalLE_pairLE_sorted lt hnle (names.zip (transposeW (nCols X) X))
+    unfold sortVarsNames sortedVars
+    rw [List.pairwise_map]
+    exact this
+
+/-- nested → long → nested (default call): values, shape, instance order and time order are those
+of the original panel, the variables are in sorted-name order (each with its own data), cells are
+Series, and — the code as it is — the columns are RELABELLED `var_0 … var_{c-1}`
+(see `long_roundtrip_loses_names` for the consequence). -/
+theorem nested_long_nested [DecidableEq ν] (ops : NameOps ν)
+    (hnle : TotalLE (fun a b : ν => !ops.lt b a)) (reserved : ν → Bool) {n c t : Nat} {k : Bool}
+    {N : Nested ν α} (hN : WFNested n c t k N) (hn : 0 < n) (hc : 0 < c) (ht : 0 < t)
+    (hres : N.names.any reserved = false) (i tm d : String) (hne : i ≠ tm) :
+    (fromNestedToLong reserved N (some i) (some tm) (some d)).bind
+      (fun L => fromLongToNested ops L i tm d none) =
+      .ok (nestedOf (defaultNames ops c) false
+        (sortVarsPanel ops.lt N.names (panelOfNested N))) := by
+  obtain ⟨hrect, _⟩ := wfNested_eq_nestedOf hN hn hc
+  have hl : N.names.length = c := by simp [Nested.names, hN.2.1]
+  rw [nested_to_long reserved hN hn hc hres (some i) (some tm) (some d)]
+  exact (fromLongToNested_ok ops hnle hrect hn hc ht N.names hl hN.1 i tm d hne).2
+
+/-- `_partial` form of the round trip: when the names are in sorted order and are passed back
+explicitly (`column_names=`), nested (Series cells) → long → nested is the identity.
+FULL-STRENGTH CLAUSE (not provable for the code as it is, see the next theorem): for every
+well-formed nested frame `N`, `from_long_to_nested(from_nested_to_long(N))` has the columns of `N`
+under their original names (in sorted-name order). -/
+theorem nested_long_nested_partial [DecidableEq ν] (ops : NameOps ν)
+    (hnle : TotalLE (fun a b : ν => !ops.lt b a)) (reserved : ν → Bool) {n c t : Nat}
+    {N : Nested ν α} (hN : WFNested n c t false N) (hn : 0 < n) (hc : 0 < c) (ht : 0 < t)
+    (hres : N.names.any reserved = false)
+    (hns : N.names.Pairwise (fun a b => (!ops.lt b a) = true)) (i tm d : String) (hne : i ≠ tm) :
+    (fromNestedToLong reserved N (some i) (some tm) (some d)).bind
+      (fun L => fromLongToNested ops L i tm d (some N.names)) = .ok N := by
+  obtain ⟨hrect, heq⟩ := wfNested_eq_nestedOf hN hn hc
+  have hl : N.names.length = c := by simp [Nested.names, hN.2.1]
+  rw [nested_to_long reserved hN hn hc hres (some i) (some tm) (some d)]
+  have := (fromLongToNested_ok ops hnle hrect hn hc ht N.names hl hN.1 i tm d hne).1 N.names hl
+  simp only [Except.bind, Option.getD]
+  rw [this, (sortVars_of_sorted ops.lt hrect hn N.names hl hns).2, ← heq]
+
+/-- FINDING (negation of the full-strength clause at a concrete witness): the nested frame with
+columns `b = [1, 2]`, `a = [3, 4]` comes back from the long table as `var_0 = [3, 4]`,
+`var_1 = [1, 2]`: the names carried by the long table are lost and the data of `a` sit in the
+first column. -/
+theorem long_roundtrip_loses_names :
+    (fromNestedToLong reservedName
+        (nestedOf [Name.s "b", Name.s "a"] false ([[[1, 2], [3, 4]]] : Arr3 Nat)) none none none).bind
+      (fun L => fromLongToNested nameOps L "index" "time_index" "column" none)
+    = .ok (nestedOf [Name.s "var_0", Name.s "var_1"] false [[[3, 4], [1, 2]]]) := by
+  rfl
+
+/-- … and with default names, as soon as there are 11 variables, data end up under ANOTHER
+variable's name: `var_10` sorts before `var_2`, so after the round trip the column labelled
+`var_2` holds the series that was `var_10`'s. -/
+theorem long_roundtrip_mislabels_default_names :
+    (fromNestedToLong reservedName
+        (nestedOf (defaultNames nameOps 11) false
+          ([[[0], [1], [2], [3], [4], [5], [6], [7], [8], [9], [10]]] : Arr3 Nat)) none none none).bind
+      (fun L => fromLongToNested nameOps L "index" "time_index" "column" none)
+    = .ok (nestedOf (defaultNames nameOps 11) false
+        [[[0], [1], [10], [2], [3], [4], [5], [6], [7], [8], [9]]]) := by
+  rfl
+
+/-- shuffled long tables: `from_long_to_nested` does not depend on the order of the rows -/
+theorem long_row_order_irrelevant [DecidableEq ν] (ops : NameOps ν)
+    (hnle : TotalLE (fun a b : ν => !ops.lt b a)) (li ltm ld : String)
+    (rows rows' : List (Int × Int × ν × α)) (hp : rows.Perm rows') (a b d : String)
+    (cn : Option (List ν)) :
+    fromLongToNested ops ⟨li, ltm, ld, rows⟩ a b d cn =
+      fromLongToNested ops ⟨li, ltm, ld, rows'⟩ a b d cn :=
+  fromLongToNested_perm ops hnle li ltm ld rows rows' hp a b d cn
+
+/-- FINDING: a nested frame with a column called `index`, `time_index` or `value` cannot be
+converted to a long table (the converter's own id / value columns collide with it) -/
+theorem nested_to_long_reserved_name_rejected (reserved : ν → Bool) {n c t : Nat} {k : Bool}
+    {N : Nested ν α} (hN : WFNested n c t k N) (hn : 0 < n) (hc : 0 < c)
+    (hres : N.names.any reserved = true) (i tm d : Option String) :
+    fromNestedToLong reserved N i tm d = .error .value := by
+  obtain ⟨hrect, heq⟩ := wfNested_eq_nestedOf hN hn hc
+  have hl : N.names.length = c := by simp [Nested.names, hN.2.1]
+  have hmi := fromNestedToMI_ok hrect hn hc N.names hl k (some "index") (some "time_index")
+  rw [← heq] at hmi
+  unfold fromNestedToLong
+  simp only [hmi, bind, Except.bind, miOf, hres, if_true]
+  rfl
+
+theorem nested_to_long_reserved_witness :
+    fromNestedToLong reservedName
+      (nestedOf [Name.s "index"] false ([[[1, 2]]] : Arr3 Nat)) none none none = .error .value := by
+  rfl
+
+/-- FINDING: duplicate column names make `from_3d_numpy_to_nested` drop columns silently
+(`df[name] = …` overwrites): a `1 × 2 × 2` array comes back as a one-column frame holding only the
+last variable.  (`arr3_nested_arr3` is the `_partial` form: it assumes `names.Nodup`.) -/
+theorem arr3_nested_duplicate_names_drop_columns :
+    from3dToNested nameOps ([[[1, 2], [3, 4]]] : Arr3 Nat) (some [Name.s "a", Name.s "a"]) false
+      = .ok ⟨[(Name.s "a", [Cell.ser [3, 4]])]⟩ := by
+  rfl
+
 /-! ### non-vacuity: concrete panels / frames meeting the hypotheses -/
 
 example : Rect3 2 2 3 ([[[1, 2, 3], [4, 5, 6]], [[7, 8, 9], [10, 11, 12]]] : Arr3 Nat) := by
@@ -368,6 +508,9 @@ example : Rect3 2 2 3 ([[[1, 2, 3], [4, 5, 6]], [[7, 8, 9], [10, 11, 12]]] : Arr
 example : WFNested 2 2 2 false (nestedOf ["b", "a"] false ([[[1, 2], [3, 4]], [[5, 6], [7, 8]]] : Arr3 Nat)) := by
   simp [WFNested, nestedOf, Nested.names, nCols, transposeW, mkCell]
 example : (defaultNames nameOps 12).Nodup := nameOps_defaultNames_nodup 12
+example : TotalLE (fun a b : Name => !nameOps.lt b a) := totalLE_nameOps
+example : [Name.i 2, Name.i 10, Name.s "a", Name.s "b"].Pairwise (fun a b => (!nameOps.lt b a) = true) := by decide
+example : [Name.s "b", Name.s "a"].any reservedName = false := by decide
 example : pathShape nameOps 2 [Hop.nm none none, Hop.m3 (some "instance") (some "timepoints"),
     Hop.a3n none true] (Shape.nested [Name.s "b", Name.s "a"] false)
     = some (Shape.nested (defaultNames nameOps 2) true) := by
